@@ -61,7 +61,8 @@ def sites(db, fn):
             if pre is None:
                 continue
             full = f.get('full') or path
-            if pre and not any(path.startswith(p) or full.startswith(p) for p in pre):
+            tp = f.get('path') or ''
+            if pre and not any(path.startswith(p) or full.startswith(p) or tp.startswith(p) for p in pre):
                 continue
             if name == 'sub' and 'Felt' in full:
                 continue
